@@ -343,7 +343,7 @@ func (w *condWorld) quiescent(req *http.Request) (string, bool) {
 	}
 	keys := caching.KeysFromRequest(server.VerifRuleDestinationRequest(req, *rf.Rule))
 	p := filepath.Join(w.dir, keys[0].FsName())
-	deadline := time.Now().Add(time.Second)
+	deadline := time.Now().Add(10 * time.Second)
 	for {
 		_, terr := os.Stat(p + ".tmp")
 		_, ferr := os.Stat(p)
